@@ -27,6 +27,7 @@ func renderDesc(d *plenccodec.Descriptor) string {
 }
 
 func execDesc(s *Sexp) string {
+	lastDescNote = ""
 	c, err := parseCtx(s)
 	if err != nil {
 		return "bad-op " + err.Error()
@@ -37,8 +38,31 @@ func execDesc(s *Sexp) string {
 			return "builderr"
 		}
 		d := cd.Descriptor()
-		return "ok " + renderDesc(&d)
+		first := renderDesc(&d)
+		// the caller owns what it got: scribbling over it must not change what the codec reports next
+		scribbleDesc(&d)
+		d2 := cd.Descriptor()
+		if second := renderDesc(&d2); second != first {
+			lastDescNote = "Descriptor() changed after the caller modified an earlier result: " + second
+			return "ok " + second
+		}
+		return "ok " + first
 	})
+}
+
+var lastDescNote string
+
+func scribbleDesc(d *plenccodec.Descriptor) {
+	d.Index, d.Name, d.TypeName, d.ExplicitPresence = 4242, "scribbled", "scribbled", !d.ExplicitPresence
+	for i := range d.Elements {
+		scribbleDesc(&d.Elements[i])
+	}
+	for i, j := 0, len(d.Elements)-1; i < j; i, j = i+1, j-1 {
+		d.Elements[i], d.Elements[j] = d.Elements[j], d.Elements[i]
+	}
+	if len(d.Elements) > 0 {
+		d.Elements = d.Elements[:len(d.Elements)-1]
+	}
 }
 
 // ---- expected descriptor, computed from the type definition by the harness
